@@ -2,7 +2,7 @@
    language.  The regex theory the engine relies on (derivative = left quotient,
    nullability, normalisation, emptiness) against the denotation re_lang; byte
    level throughout, so a token may end inside a UTF-8 character. *)
-From LLG Require Import Base Regex RegexProofs.
+From LLG Require Import Base Regex RegexProofs Substring SubstringProofs.
 
 (* complete strings: the derivative matcher decides the denotation *)
 Theorem C04_match_iff_language : forall r w, bytes_ok w -> (re_match r w = true <-> re_lang r w).
@@ -55,3 +55,14 @@ Example C04_example :
   let r := And (Rep (Alt ab (Bytes (bset_single 99))) 1 (Some 2)) (Not (Cat ab ab)) in
   map (re_match r) [[97;98]; [97;98;97;98]; [97;98;99]; [99]; []] = [true; false; true; true; false].
 Proof. vm_compute. reflexivity. Qed.
+
+(* %regex substring: exactly the contiguous runs of chunks of the source (the empty run included) *)
+Theorem C04_substring : forall chunks w, Forall bytes_ok chunks ->
+  (re_lang (substring_rx chunks) w <-> chunk_run chunks w).
+Proof. exact substring_lang. Qed.
+Print Assumptions C04_substring.
+
+Theorem C04_substring_chars : forall (s : bytes) w, bytes_ok s ->
+  (re_lang (substring_rx (map (fun b => [b]) s)) w <-> exists u v, s = u ++ w ++ v).
+Proof. exact substring_chars_lang. Qed.
+Print Assumptions C04_substring_chars.
